@@ -496,17 +496,26 @@ func mutate(r *rng, n *node, o genOpts) (*node, string, bool) {
 			// change one leaf to a different value of the same kind: half of the time to an
 			// immediate neighbour (next integer, next float, one byte more), where a lossy
 			// comparison (through a narrower or a floating type, a hash, a prefix) would not tell them apart
+			// (a changed KEY must stay different, under the ranking, from the other keys of its map: int8(2) -> int8(1)
+			// next to a key int(1) would leave the properties' universe - wfKeys)
+			old := x.prim
 			if r.chance(1, 2) {
 				if y := neighbourLeaf(r, x); y != nil && !sameLeaf(x, y) {
 					x.prim = y.prim
-					return c, "leaf-neighbour", true
+					if wfKeys(c) {
+						return c, "leaf-neighbour", true
+					}
+					x.prim = old
 				}
 			}
 			for k := 0; k < 10; k++ {
 				y := genLeaf(r, x.kind, false)
 				if !sameLeaf(x, y) {
 					x.prim = y.prim
-					return c, "leaf", true
+					if wfKeys(c) {
+						return c, "leaf", true
+					}
+					x.prim = old
 				}
 			}
 		case isSeqKind(x.kind):
@@ -689,6 +698,10 @@ func genCollate(prop string, seed uint64, tier, outDir string, count int) error 
 	seen := map[string]bool{}
 	for i := 0; i < count; i++ {
 		var caseBad []string
+		var pool []poolVal // values of this case (and neighbours of them) for the transitivity laws
+		firstKind, firstObs := "", ""
+		var firstA, firstB any
+		var firstNA, firstNB *node
 		maximum := 16
 		if r.chance(1, 4) {
 			maximum = 1 + r.intn(4)
@@ -703,16 +716,26 @@ func genCollate(prop string, seed uint64, tier, outDir string, count int) error 
 			note := "pair"
 			depth := 1 + r.intn(3)
 			na = genNode(r, depth, o)
-			nilFamily, nilEqual := false, false
+			nilFamily, nilEqual, relation := false, false, "unknown"
 			switch x := r.intn(10); {
 			case x >= 8:
 				// a nil value inside a container against "absent" / against a zero value (collatenil.go)
-				if r.chance(1, 5) {
-					na, nb, note, nilEqual = genNeighbourFamily(r) // adjacent leaves, where a lossy comparison merges
-				} else {
+				switch d := r.intn(10); {
+				case d < 2:
+					na, nb, note, nilEqual = genNeighbourFamily(r) // adjacent leaves, where a lossy comparison merges; extremes
+				case d < 3:
+					na, nb, note = genCrossKind(r) // leaves of different kinds that a conversion to the first one's width confuses
+				default:
 					na, nb, note, nilEqual = genNilFamily(r)
 				}
 				nilFamily = true
+				relation = "differ"
+				if nilEqual {
+					relation = "equal"
+				}
+				if strings.HasPrefix(note, "crosskind") {
+					relation = "unknown"
+				}
 			case x < 3:
 				nb = cloneNode(na) // independently rebuilt copy (maps in another insertion order)
 				note = "copy"
@@ -788,22 +811,60 @@ func genCollate(prop string, seed uint64, tier, outDir string, count int) error 
 				meta.Steps++
 				return obs, obs2
 			}
+			askedKind := "rank"
+			var askedObs string
 			switch {
 			case nilFamily:
-				// both questions about the same pair, and the property's statements on the answers
-				rk1, rk2 := emit("rank")
-				c1, c2 := "", ""
+				// both questions about the same pair
+				askedObs, _ = emit("rank")
 				if !orderDependent {
-					c1, c2 = emit("compare")
-				}
-				for _, what := range nilFamilyPredicates(note, nilEqual, rk1, rk2, c1, c2) {
-					caseBad = append(caseBad, fmt.Sprintf("%s on %s", what, shortVal(a, b)))
+					emit("compare")
 				}
 			case orderDependent || r.chance(1, 2):
-				emit("rank")
+				askedObs, _ = emit("rank")
 			default:
-				emit("compare")
+				askedKind = "compare"
+				askedObs, _ = emit("compare")
 			}
+			if k == 0 {
+				firstKind, firstObs, firstA, firstB, firstNA, firstNB = askedKind, askedObs, a, b, na, nb
+			}
+			// the property's own statements on the implementation's answers (collatepred.go)
+			caseBad = append(caseBad, pairLaws(cl, na, nb, a, b)...)
+			if nilFamily {
+				caseBad = append(caseBad, knownRelationLaws(cl, note, relation, na, nb, a, b)...)
+			}
+			if k < 2 {
+				pool = poolAdd(pool, na, a)
+				pool = poolAdd(pool, nb, b)
+				// further neighbours of the two values, so that the triples are not decided by the type names alone
+				for _, base := range []*node{na, nb} {
+					if len(pool) >= 6 || hasCyc(base) {
+						continue
+					}
+					if m, _, ok := mutate(r, base, o); ok {
+						pool = poolAdd(pool, m, build(m, r))
+					}
+				}
+			}
+		}
+		caseBad = append(caseBad, poolLaws(cl, pool)...)
+		if firstKind != "" {
+			// the first question again, after every other call of the case on the same collator
+			again := ""
+			if firstKind == "rank" {
+				again = doRank(cl, firstA, firstB)
+			} else {
+				again = doCompare(cl, firstA, firstB)
+			}
+			if again != firstObs && again != "None" && firstObs != "None" && wfKeys(firstNA) && wfKeys(firstNB) {
+				caseBad = append(caseBad, fmt.Sprintf("the answer depends on earlier calls on the same collator: %s(a,b) was %s when asked first and %s when asked again after the %d other pairs of the case, for a = %s, b = %s",
+					firstKind, firstObs, again, ncalls-1, goSyntax(firstNA), goSyntax(firstNB)))
+			}
+		}
+		caseBad = dedupStrings(caseBad)
+		if len(caseBad) > 6 {
+			caseBad = caseBad[:6]
 		}
 		if len(caseBad) > 0 {
 			predViol = append(predViol, map[string]any{"case": i, "violated": caseBad})
@@ -820,7 +881,7 @@ func genCollate(prop string, seed uint64, tier, outDir string, count int) error 
 	meta.Cases = len(cases)
 	meta.Extra["predicate_violations"] = predViol
 	meta.Extra["cases_violating_the_property_predicates_on_the_implementation"] = len(predViol)
-	meta.Rule = "each case is one collator (maximum 16 or 1..4) and 1..6 value pairs from the structured universe (all leaf kinds with boundary values, any-containers and typed containers nested to depth 3): random same-shape pairs, independently rebuilt copies (maps inserted in another order), single-point mutations (leaf, add, remove, swap, rename key - preferring a key whose value is nil -, nil to a defined/zero value), the nil family (a fifth of the pairs: maps map[any]any / map[string]any / Map[any,any] / Map[string,any] / Catalog with a nil-valued entry against the copy, the nil-valued key renamed, the nil moved to another key, the nil replaced by a defined or zero value, renamed and defined, the entry dropped, a nil entry added; sequences differing only in nil vs 0 / \"\" / false / 0.0 / nil slice / nil map or in the position or number of nils; associations with a nil value; each also nested one or two levels; and, one directed pair in five, two adjacent leaves - 2^53 / 2^53+1, MaxInt64-1 / MaxInt64, adjacent floats, a string plus one NUL byte, or two integers whose difference overflows (MinInt64 against a positive number) - alone or nested; for all directed pairs both RankValues and CompareValues in both orders, with the property's own statements evaluated on the answers) and, for C08, self-containing lists (depth 1..3, with siblings); every pair is called in both argument orders; a case is distinct when its call/result trace differs from every other"
+	meta.Rule = "each case is one collator (maximum 16 or 1..4) and 1..6 value pairs from the structured universe (all leaf kinds with boundary values, any-containers and typed containers nested to depth 3): random same-shape pairs, independently rebuilt copies (maps inserted in another order), single-point mutations (leaf, add, remove, swap, rename key - preferring a key whose value is nil -, nil to a defined/zero value), the nil family (a fifth of the pairs: maps map[any]any / map[string]any / Map[any,any] / Map[string,any] / Catalog with a nil-valued entry against the copy, the nil-valued key renamed, the nil moved to another key, the nil replaced by a defined or zero value, renamed and defined, the entry dropped, a nil entry added; sequences differing only in nil vs 0 / \"\" / false / 0.0 / nil slice / nil map or in the position or number of nils; associations with a nil value; each also nested one or two levels; and, one directed pair in five, two adjacent leaves - 2^53 / 2^53+1, MaxInt64-1 / MaxInt64, adjacent floats, a string plus one NUL byte, or two integers whose difference overflows (MinInt64 against a positive number), or two leaves of different kinds (a byte against a wider unsigned value beyond 255, a narrow integer against a wider one beyond its range, float32 against float64) - alone or nested; for all directed pairs both RankValues and CompareValues in both orders, with what the generator knows about them - copy equal, difference unequal - checked on the answers) and, for C08, self-containing lists (depth 1..3, with siblings); every pair is called in both argument orders; a case is distinct when its call/result trace differs from every other; independently of the model the properties' own statements are evaluated on the real collator's answers (predicate_violations): for every pair reflexivity of RankValues and CompareValues, the mirror law, symmetry, the natural order the property names (nil first, false<true, numeric, byte-wise strings, proper prefix first), and Compare <=> Rank Equal for pairs without mixed integer/float widths; per case transitivity of both on all ordered triples of a pool of up to 6 values (the first two pairs and mutated neighbours of them); and the first question of the case asked again after all other calls on the same collator"
 	for i := 0; i < 3 && i < len(cases); i++ {
 		meta.Samples = append(meta.Samples, meta.Traces[i*len(cases)/3])
 	}
